@@ -132,22 +132,36 @@ def command_line(draw):
 
 
 @st.composite
+def pair_step(draw):
+    # two sessions send a command at the same instant: the second one queues behind / races the first
+    # (seeded/C06-2: a command the management task holds while the mailbox is shut down by a DELETE)
+    # "@SEL" stands for whatever mailbox session a has selected when the step runs
+    box = draw(st.sampled_from(["@SEL", "@SEL", "@SEL", "mb", "emp", "par/child", "par", "gone", "inbox"]))
+    # (the long-running first commands and the slow client were added after seeded/C06-4: an EXAMINE that
+    #  arrives while another session's command is still executing on the mailbox)
+    pair_first = draw(st.sampled_from([f"DELETE {box}", f"DELETE {box}", f"RENAME {box} {box}2", "EXPUNGE", "CLOSE", f"SELECT {box}",
+                                       "FETCH 1:* (FLAGS BODY.PEEK[])", "UID FETCH 1:* (BODY.PEEK[HEADER])", "SEARCH TEXT zzz9", "COPY 1:* emp", "FETCH 1:* (FLAGS BODY.PEEK[])"]))
+    m9 = "From: a@example.com\r\nSubject: pair\r\n\r\nx\r\n"
+    same_box = [f"SELECT {box}", f"EXAMINE {box}", f"STATUS {box} (MESSAGES UNSEEN)", f"APPEND {box} {{{len(m9)}}}\r\n{m9}", f"DELETE {box}",
+                f"RENAME {box} other9", f"SUBSCRIBE {box}", f"COPY 1 {box}", f"UID MOVE 1 {box}", f"CREATE {box}/kid9"]
+    second = draw(st.one_of(st.sampled_from(same_box), st.sampled_from(same_box), command_line()))
+    return {"op": "pair", "line": pair_first, "line2": second, "gap": draw(st.integers(0, 3)), "slow": draw(st.booleans())}
+
+
+@st.composite
 def step(draw):
     k = draw(st.integers(0, 19))
     s = draw(st.sampled_from(["a", "a", "b"]))
-    if k <= 14:
+    if k <= 12:
         return {"op": "cmd", "s": s, "line": draw(command_line())}
+    if k in (13, 14):
+        return draw(pair_step())
     if k == 15:
         return {"op": "idle", "s": s}
     if k == 16:
         return {"op": "garbage", "s": s, "data": draw(st.sampled_from(["", " ", "hello", "* OK", "+ go", "a", "DONE", "\x00\x01", "(((", "NOOP"]))}
     if k == 17:
-        if draw(st.booleans()):
-            return {"op": "restart"}
-        # two sessions send a command at the same instant: the second one queues behind / races the first
-        # (seeded/C06-2: a command the management task holds while the mailbox is shut down by a DELETE)
-        pair_first = draw(st.sampled_from(["DELETE mb", "DELETE emp", "DELETE par/child", "RENAME mb mb2", "EXPUNGE", "CLOSE", "DELETE gone"]))
-        return {"op": "pair", "line": pair_first, "line2": draw(command_line()), "gap": draw(st.integers(0, 3))}
+        return {"op": "restart"}
     if k == 18:
         return {"op": "cmd", "s": s, "line": "SELECT " + draw(st.sampled_from(["inbox", "mb", "emp", "par/child"]))}
     return {"op": "cmd", "s": s, "line": "LOGOUT"}
@@ -233,8 +247,15 @@ def execute(trace) -> CaseResult:
             c = "UID " + parts[1].upper()
         return c
 
+    selected = {}  # session name -> mailbox it has selected (as far as the harness knows)
+
     async def check_cmd(sess, line: str):
         r = await sess.cmd(line.encode("latin-1"))
+        up = line.upper()
+        if up.startswith(("SELECT ", "EXAMINE ")):
+            selected[sess.name] = line.split(" ", 1)[1].strip().strip('"') if r.ok else None
+        elif up.startswith(("CLOSE", "UNSELECT", "LOGOUT")):
+            selected[sess.name] = None
         transcript.append({"s": sess.name, "c": line[:80], "r": r.status, "t": round(r.vdur, 2), "closed": r.closed})
         sig = cmd_sig(line)
         if r.hang or r.watchdog:
@@ -274,7 +295,8 @@ def execute(trace) -> CaseResult:
 
         if trace.get("presel"):
             s = get("a")
-            await s.cmd((b"EXAMINE " if trace.get("examine") else b"SELECT ") + trace["presel"].encode())
+            rp = await s.cmd((b"EXAMINE " if trace.get("examine") else b"SELECT ") + trace["presel"].encode())
+            selected["a"] = trace["presel"] if rp.ok else None
         for st_ in trace["steps"]:
             res.steps += 1
             op = st_["op"]
@@ -290,6 +312,14 @@ def execute(trace) -> CaseResult:
                 sa, sb = get("a"), get("b")
                 if sa.idle_tag or sb.idle_tag:
                     continue
+                cur = selected.get("a") or "inbox"
+                st_ = dict(st_, line=st_["line"].replace("@SEL", cur), line2=st_["line2"].replace("@SEL", cur))
+
+                if st_.get("slow"):
+                    import random as _rnd
+
+                    rr = _rnd.Random(trace.get("rseed", 0) * 31 + res.steps)
+                    sa.writer.slow = lambda: rr.choice((0.0, 0.001, 0.003, 0.02))  # session a reads slowly
 
                 async def second():
                     if st_["gap"]:
@@ -297,6 +327,7 @@ def execute(trace) -> CaseResult:
                     return await check_cmd(sb, st_["line2"])
 
                 await asyncio.gather(check_cmd(sa, st_["line"]), second())
+                sa.writer.slow = None
                 res.labels.append("pair")
                 for nm_, ss_ in (("a", sa), ("b", sb)):
                     if not ss_.alive:
